@@ -78,6 +78,14 @@ Defs == [
   \* a dataclass with a field that is no constructor parameter (init=False, with a default)
   D9  |-> [flavour |-> "dataclass",    module |-> "m1", py |-> "D9",  fields |-> << <<"a", P("int"), FALSE>>,
                                                                                      <<"stamp", Wrap("noinit", P("date")), TRUE, "datetime.date(2020, 1, 1)">> >>],
+  \* seven members, named like things routines use themselves (a parameter of a routine, a dict method, a keyword-like word)
+
+  W7  |-> [flavour |-> "dataclass",    module |-> "m1", py |-> "W7",  fields |-> << <<"t", P("int"), FALSE>>, <<"val", P("str"), FALSE>>,
+             <<"get", P("date"), FALSE>>, <<"type", P("Decimal"), FALSE>>, <<"args", Coll("list", "builtin", P("int")), FALSE>>,
+             <<"kwargs", Map("builtin", P("str"), P("int")), FALSE>>, <<"items", P("bool"), FALSE>> >>],
+  \* TypedDict keys that are no identifiers a class could use, or differ only by case (non-ASCII names are not used: value terms carry escaped text)
+  TD7 |-> [flavour |-> "typeddict",    module |-> "m1", py |-> "TD7", fields |-> << <<"self", P("int"), FALSE>>, <<"cls", P("date"), FALSE>>,
+             <<"Key", P("int"), FALSE>>, <<"key", P("str"), FALSE>>, <<"KEY", P("Decimal"), FALSE>> >>],
   \* a dataclass whose instances are falsy (a status object, an empty page: __bool__ / __len__ belong to the value, not to its type)
   F1  |-> [flavour |-> "dc_falsy",     module |-> "m1", py |-> "F1",  fields |-> << <<"n", P("int"), FALSE>>, <<"at", P("date"), FALSE>> >>],
   \* a dataclass whose instances can be called (a structured class like any other)
@@ -180,7 +188,12 @@ NoneAlias == {Wrap("alias", NoneT), Coll("list", "builtin", Wrap("alias", NoneT)
 \* an enumeration declared after a container / record member (its members must not pass for an empty container)
 EnumAfter == {Un("Union", <<a, E(e)>>) : a \in {Coll("list", "builtin", P("int")), Map("builtin", P("str"), P("int")), Cls("D1"),
                                                  Tup(<<P("int"), P("str")>>), Cls("TD2")}, e \in {"Color", "Level"}}
-Adversarial == NoneMiddle \cup TwicePaths \cup NameClash \cup NoneAlias \cup EnumAfter
+\* size: six union members, five nesting levels, a fixed tuple of six
+Scale == {Un("Union", <<P("bool"), P("int"), P("float"), P("date"), Cls("D1"), Coll("list", "builtin", P("int")), NoneT>>),
+          Coll("list", "builtin", Coll("list", "builtin", Coll("list", "builtin", Coll("list", "builtin", Coll("list", "builtin", P("date")))))),
+          Map("builtin", P("str"), Map("builtin", P("str"), Map("builtin", P("str"), Map("builtin", P("str"), Coll("list", "builtin", Cls("D1")))))),
+          Tup(<<P("int"), P("str"), P("date"), P("Decimal"), E("Tag"), Cls("N1")>>)}
+Adversarial == NoneMiddle \cup TwicePaths \cup NameClash \cup NoneAlias \cup EnumAfter \cup Scale
 
 Universe == Depth2 \cup WithWrappers \cup Adversarial
 
